@@ -76,7 +76,7 @@ Proof. intros. now apply rev_groups_ok. Qed.
    its own class unless an earlier field already failed *)
 Theorem alias_error_reaches_caller : forall E subrev tags pre e post gpre g gpost opre c,
   groups_rel E subrev (MAlias tags) pre gpre opre ->
-  exported (sfo_name (me_in e)) = true ->
+  xexported (sfo_name (me_in e)) = true ->
   unmangle_field E subrev (MAlias tags) e g = Err c ->
   rev_groups E subrev (MAlias tags) (pre ++ e :: post) (gpre ++ g :: gpost) = Err c.
 Proof.
@@ -122,7 +122,7 @@ Proof. exact env_chain_spec_l. Qed.
    the path of enclosing field names), is computed from exactly the two
    translated fields named by its primary and its alias-copy path: *)
 Theorem alias_value_reaches_field : forall E env tags names n tg t r,
-  wf_ty t = true -> leaf_ok t = true -> under_is_struct t = false -> exported n = true ->
+  wf_ty t = true -> leaf_ok t = true -> under_is_struct t = false -> xexported n = true ->
   has_alias tags tg = true ->
   bound env (enc0 (names ++ [n])) -> bound env (enc0 (names ++ [n ++ alias_field_suffix])) ->
   fspec_fields E (Shape tags (Some 0%N) false false false) env 0%N names (FCons n tg false t r) =
